@@ -27,23 +27,35 @@
 //
 //	m := metamodel.New()
 //	cls := m.Put(spec, epoch)                 // admission class: OK, AlreadyRemoved, Expired, Locked, LockNonRegular, LockRemoval, TSOnTS
+//	cls := m.PutWith(spec, epoch, hint)       // same; hint = observed class, used ONLY where admission is unspecified
+//	                                          // (LOCK on a target that merely inherits a tombstone from its parent)
 //	m.MarkGarbage(c, ids, redundant)          // default / redundant garbage marks (children of a parent are marked too)
 //	m.InhumeContainer(c); m.DeleteContainer(c)
 //	removed := m.Delete(c, ids)               // physical deletion of metadata (GC), parent dropped with its last child
 //	cls = m.Revive(c, id, tsHint)             // OK, NotRemoved, ContainerRemovedCls
 //	st := m.Status(addr, epoch)               // Stored, Reasons, Locked, ParentKind ("", "split", "ec"), Obj
-//	m.Reasons(addr, epoch, ignoreExp)         // reason set only
-//	m.Locked(addr, epoch, ignoreExp)          // live lock?
+//	m.Reasons(addr, epoch, ignoreExp)         // reason set only; r.Admits(class) tells whether a view may report class
+//	m.Primary(addr, epoch)                    // the single status Put admission uses (own expiry > own tombstone > worst of mark/parent)
+//	m.Locked(addr, epoch, ignoreExp)          // live lock? (any stored, unexpired, unremoved LOCK)
 //	m.Available(epoch) / m.AvailableIn(c, e)  // stored objects (incl. virtual parents) with empty reason set  == unfiltered search
 //	must, may := m.Listed()                   // physical listing: must ⊆ ListWithCursor ⊆ must ∪ may
 //	m.ExpiredAt(epoch)                        // == IterateExpired(epoch)
 //	m.GarbageMarked(); m.RemovedContainers()  // ⊆ GetGarbage
-//	m.Counters()                              // recount {Phy, Root, TS, Lock, Link} over all containers (C02)
+//	m.Counters() / m.CountersIn(c)            // recount {Phy, Root, TS, Lock, Link} (C02)
 //	m.ContainerInfo(c)                        // (objects number, payload size) of physical objects not marked for removal
-//	m.MaxDepth()                              // longest child→parent chain (generators keep it ≤ 2)
-//	metamodel.Describe(spec)                  // what uni.Build(spec) means for the model
+//	m.MarkedForRemoval(a), m.Mark(a), m.Tombstones(a), m.Children(a), m.ParentOf(a), m.ECParts(a, rule, part)
+//	m.Stored(a), m.Get(a), m.StoredIn(c), m.MaxDepth(), m.Clone()
+//	metamodel.Describe(spec), metamodel.ParentHeader(spec)   // what uni.Build(spec) means for the model
 //	metamodel.Classify(err)                   // real error -> Class (classify.go; imports neofs error types only)
-//	metamodel.CatalogGen(opts)                // consistent per-case universe of Specs (catalog.go)
+//	metamodel.CatalogGen(opts)                // consistent per-case universe of Specs (catalog.go): use it instead of
+//	                                          // raw uni.SpecGen so that one ID always denotes one object
+//	metamodel/drv                             // World{Cat, M, B Backend, …}.Actions(): the shared rapid state machine
+//	                                          // (real metabase or shard + model), Avoid/Excluded for recorded findings
+//
+// Model.Quirks switches single rules to alternative readings; the checks use
+// LockOverridesTombstone only to DETECT states where a live lock and a
+// tombstone coexist (unspecified, see c01), FirstLockOnly is the pre-fix
+// behaviour of objectLocked (kept for sensitivity experiments).
 //
 // All slices returned are sorted by (container, object) index, so they can be
 // compared directly.
